@@ -572,6 +572,28 @@ pub fn drive_inputs(a: &Args, w: &Words, budget_bytes: usize, maxlen: usize) {
             rec.fin(1);
         }
     }
+    // the same object used for one input after another (as a caller hashing many files does):
+    // a dense input that fills several block sizes, reset(), then a sparse input that is large but
+    // ends almost no pieces -- the block size guess then walks over contexts the sparse input never
+    // started, which still hold the dense input's pieces
+    for i in 0..(if a.tier == "thorough" { 8usize } else { 3 }) {
+        rec.begin();
+        rec.new_gen(0);
+        let dense = make_input(&mut rng, w, 0, 20_000 + 9_000 * i);
+        rec.update(0, (i % 3) as u8, &dense);
+        rec.fin(0);
+        rec.reset(0);
+        let mut sparse = vec![0u8; 6_000 + 5_000 * i];
+        if i % 2 == 1 {
+            sparse.extend_from_slice(b"Hello, World!\n");
+        }
+        if i % 3 == 2 {
+            let at = sparse.len() / 2;
+            sparse[at] = 1;
+        }
+        rec.update(0, ((i + 1) % 3) as u8, &sparse);
+        rec.fin(0);
+    }
     let mut used = 0usize;
     let mut first = true;
     while used < budget_bytes {
@@ -593,6 +615,39 @@ pub fn drive_inputs(a: &Args, w: &Words, budget_bytes: usize, maxlen: usize) {
     sh.finish();
 }
 
+/// a fresh generator really fed `n` zero bytes: form 0 = slices of 1 MiB, 1 = ONE update_by_iter call,
+/// 2 = single bytes, 3 = one iterator call per 2^31 bytes
+pub fn real_zero_run(n: u64, form: u8) -> Generator {
+    let mut g = Generator::new();
+    match form {
+        1 => {
+            g.update_by_iter(std::iter::repeat(0u8).take(n as usize));
+        }
+        2 => {
+            for _ in 0..n {
+                g.update_by_byte(0);
+            }
+        }
+        3 => {
+            let mut left = n;
+            while left > 0 {
+                let k = left.min(1 << 31);
+                g.update_by_iter(std::iter::repeat(0u8).take(k as usize));
+                left -= k;
+            }
+        }
+        _ => {
+            let chunk = vec![0u8; 1 << 20];
+            let mut left = n;
+            while left > 0 {
+                let k = left.min(chunk.len() as u64) as usize;
+                g.update(&chunk[..k]);
+                left -= k as u64;
+            }
+        }
+    }
+    g
+}
 fn random_cuts(rng: &mut Rng, len: usize, style: u64) -> Vec<usize> {
     // returns chunk lengths summing to len
     let mut v = vec![];
@@ -706,6 +761,32 @@ pub fn drive_histories(a: &Args, w: &Words, budget_bytes: usize, maxlen: usize, 
         rec.hash_stream(0, &mut rng, 40000);
         used += n;
     }
+    // long trigger-free runs through each update form in ONE call where the form allows it: the three
+    // forms account the input size differently, and a counter narrower than the size would only show
+    // here.  Compared with the closed-form state of n zero bytes and continued with a suffix.
+    if !with_decl {
+        let runs: Vec<(u64, u8)> = if a.tier == "thorough" {
+            vec![((1u64 << 32) + 64, 1), ((1u64 << 33) + 5, 1), ((1u64 << 32) + 64, 2), ((1u64 << 32) + 64, 3), ((1u64 << 32) + 64, 0)]
+        } else {
+            vec![((1u64 << 32) + 64, 1), ((1u64 << 16) + 3, 2), ((1u64 << 31) + 9, 3)]
+        };
+        for (n, f) in runs {
+            rec.begin();
+            let g = real_zero_run(n, f);
+            rec.slot(0);
+            rec.gens[0] = Some(g);
+            rec.sh.emit(&format!("{{\"ev\":\"realzeros\",\"g\":0,\"n\":{},\"f\":{}}}", jsize(n), f));
+            rec.zeros(1, n);
+            let eq = rec.gens[0].as_ref().unwrap().verif_inner_eq(rec.gens[1].as_ref().unwrap());
+            rec.sh.emit(&format!("{{\"ev\":\"same\",\"g\":0,\"h\":1,\"r\":{}}}", eq));
+            rec.fin(0);
+            let mut suf = vec![];
+            let lvx = rng.range(0, 12) as i32;
+            words_seq(&mut rng, w, &[(lvx, 40), (-1, 1)], &mut suf);
+            rec.update(0, 1, &suf);
+            rec.fin(0);
+        }
+    }
     let st = rec.stats();
     println!("STATS {{\"hist\":{{{},\"bytes\":{}}}}}", st, used);
     sh.finish();
@@ -786,17 +867,10 @@ pub fn drive_sizes(a: &Args, w: &Words, thorough: bool) {
     }
     for &n in &bigs {
         rec.begin();
-        let mut g = Generator::new();
-        let chunk = vec![0u8; 1 << 20];
-        let mut left = n;
-        while left > 0 {
-            let k = left.min(chunk.len() as u64) as usize;
-            g.update(&chunk[..k]);
-            left -= k as u64;
-        }
+        let g = real_zero_run(n, 0);
         rec.slot(0);
         rec.gens[0] = Some(g);
-        rec.sh.emit(&format!("{{\"ev\":\"realzeros\",\"g\":0,\"n\":{}}}", jsize(n)));
+        rec.sh.emit(&format!("{{\"ev\":\"realzeros\",\"g\":0,\"n\":{},\"f\":0}}", jsize(n)));
         rec.zeros(1, n);
         let eq = rec.gens[0].as_ref().unwrap().verif_inner_eq(rec.gens[1].as_ref().unwrap());
         rec.sh.emit(&format!("{{\"ev\":\"same\",\"g\":0,\"h\":1,\"r\":{}}}", eq));
@@ -933,17 +1007,11 @@ pub fn replay(inp: &str, out_dir: &str) {
             "zeros" => rec.zeros(g, sz(&e["n"])),
             "realzeros" => {
                 let n = sz(&e["n"]);
-                let mut gen = Generator::new();
-                let chunk = vec![0u8; 1 << 20];
-                let mut left = n;
-                while left > 0 {
-                    let k = left.min(chunk.len() as u64) as usize;
-                    gen.update(&chunk[..k]);
-                    left -= k as u64;
-                }
+                let f = e.get("f").and_then(|x| x.as_u64()).unwrap_or(0) as u8;
+                let gen = real_zero_run(n, f);
                 rec.slot(g);
                 rec.gens[g] = Some(gen);
-                rec.sh.emit(&format!("{{\"ev\":\"realzeros\",\"g\":{},\"n\":{}}}", g, jsize(n)));
+                rec.sh.emit(&format!("{{\"ev\":\"realzeros\",\"g\":{},\"n\":{},\"f\":{}}}", g, jsize(n), f));
             }
             "same" => {
                 let h = e["h"].as_u64().unwrap() as usize;
